@@ -30,6 +30,16 @@ def stamp_ok():
 def run():
     os.makedirs(os.path.join(VERIF, '.cache'), exist_ok=True)
     os.makedirs(vrun.GEN_DIR, exist_ok=True)
+    # one builder at a time (concurrent checks share gen/ and the stamp)
+    import fcntl
+    with open(os.path.join(VERIF, '.cache', 'model_facts.lock'), 'w') as lk:
+        fcntl.flock(lk, fcntl.LOCK_EX)
+        if stamp_ok():
+            return True
+        return _run()
+
+
+def _run():
     b = vrun.build()
     chk = ''.join('// ---- %s\n' % os.path.basename(p) + open(p).read() + '\n' for p in sorted(glob.glob(os.path.join(VERIF, 'spec', 'checker_*.vrs')), reverse=True))
     mods = [m for m in vrun.CORE_MODS]
